@@ -9,7 +9,14 @@ its order-id part) and then the keeper function (`msgMarketSettle` / `msgFillBid
 
 Not modelled here (other properties' subject, kept out of the generated histories): the hold module's
 own bookkeeping (C02; `holdsOf` only states what is on hold as a function of the open orders, for the
-dump), permissions / required attributes (C11), creation fees, insufficient funds.
+dump and for what the bank may spend), permissions / required attributes (C11), creation fees, insufficient
+funds at order creation.
+
+A message runs on a cache (`runTx`'s cached context; the harness's `Try`): `closeSettlement` issues its bank
+sends one after the other, each is written to the cache when the sender can spend the coins and refused
+otherwise (`runSends`); the keeper collects the errors, goes on with the remaining sends, and returns the
+errors at the end — the cache, with whatever was written to it, is then discarded (`KState.closeCached`,
+`KState.close`).
 -/
 import PvModel.Settle
 
@@ -27,6 +34,7 @@ inductive KErr where
   | zeroId                 -- ValidateBasic: "invalid … order ids: cannot contain order id zero"
   | dupIds                 -- ValidateBasic: "duplicate … order ids provided"
   | bothSides              -- ValidateBasic: "order ids duplicated as both bid and ask"
+  | funds                  -- bank: "spendable balance … is smaller than …: insufficient funds"
   deriving DecidableEq, Repr
 
 def KErr.toString : KErr → String
@@ -39,6 +47,7 @@ def KErr.toString : KErr → String
   | .zeroId => "err:zeroid"
   | .dupIds => "err:dupids"
   | .bothSides => "err:bothsides"
+  | .funds => "err:funds"
 
 /-- the part of the chain state a settlement touches -/
 structure KState where
@@ -83,18 +92,58 @@ def KState.getOrders (s : KState) (wantAsk : Bool) (ids : List Nat) (other : Add
     | none => .error .order
     | some o => if o.isAsk ≠ wantAsk ∨ o.owner = other then .error .order else .ok o
 
-/-- `closeSettlement`: transfers, fees, then the order records (partial remainder rewritten, fully
-filled orders deleted). -/
+/-- The bank sends of `closeSettlement` in the order the keeper issues them (keeper/fulfillment.go:284-294,
+keeper.go:289-324): every transfer (`DoTransfer`), then all fee inputs to the market account
+(`CollectFees`), then the exchange's share `ex` from the market account to the fee collector. -/
+def closeSends (market collector : Addr) (st : Settlement) (ex : Coins) : List Transfer :=
+  st.transfers ++ [⟨st.feeInputs, [(market, st.feeInputs.total)]⟩, ⟨[(market, ex)], [(collector, ex)]⟩]
+
+/-- bank `subUnlockedCoins`: an input can be sent iff, per denom, it does not exceed the sender's balance
+minus what is locked (on hold) for the sender. -/
+def canSend (locked : Addr → Coins) (L : Ledger) (inp : Addr × Coins) : Bool :=
+  (Coins.denoms inp.2).all fun d =>
+    decide (Coins.amountOf inp.2 d ≤ Ledger.bal L inp.1 d - Coins.amountOf (locked inp.1) d)
+
+/-- The sends run one after the other **on the message's cache** `L`: a send all of whose inputs are
+spendable at that moment is written to the cache; one that is not is refused — and, as `closeSettlement`
+collects the errors and goes on, the later sends still run on the cache.  Returns the cache at the end
+and whether every send went through. -/
+def runSends (locked : Addr → Coins) : Ledger → List Transfer → Ledger × Bool
+  | L, [] => (L, true)
+  | L, t :: rest =>
+    if t.inputs.all (canSend locked L) then runSends locked (L ++ t.ledger) rest
+    else ((runSends locked L rest).1, false)
+
+/-- the order records after `closeSettlement`: fully filled orders deleted, the partial remainder rewritten -/
+def KState.keptOrders (s : KState) (st : Settlement) : List Order :=
+  match st.partialLeft with
+  | some left => (s.orders.filter (fun o => !(st.fullyFilled.map (·.order.id)).contains o.id)).map
+      (fun o => if o.id = left.id then left else o)
+  | none => s.orders.filter (fun o => !(st.fullyFilled.map (·.order.id)).contains o.id)
+
+/-- what is locked for an account given the open orders: their hold amounts -/
+def lockedOf (orders : List Order) (a : Addr) : Coins :=
+  ((orders.filter (·.owner = a)).map Order.holdAmount).flatten
+
+/-- `closeSettlement` on the message's cache: the holds of the filled orders are released (what stays
+locked is what the remaining open orders need), the sends run on the cache, then the order records are
+written (partial remainder rewritten, fully filled orders deleted).  Returns the **cache** as it is when
+the keeper function returns, and the error it returns (`none` = success).  Whether the cache is kept is
+the caller's business (`KState.close`). -/
+def KState.closeCached (s : KState) (market collector : Addr) (st : Settlement) : KState × Option KErr :=
+  match exchangeSplit s.splitOf st.feeInputs.total with
+  | .error e => (s, some (.build e))
+  | .ok ex =>
+    let r := runSends (lockedOf (s.keptOrders st)) s.ledger (closeSends market collector st ex)
+    if r.2 then ({ s with orders := s.keptOrders st, ledger := r.1 }, none)
+    else ({ s with ledger := r.1 }, some .funds)
+
+/-- `closeSettlement` as the message sees it: the cache is committed when the keeper function returned no
+error and **discarded** otherwise (nothing the failed run wrote is kept). -/
 def KState.close (s : KState) (market collector : Addr) (st : Settlement) : Except KErr KState :=
-  match closeSettlement market collector s.splitOf st with
-  | .error e => .error (.build e)
-  | .ok l =>
-    let gone := st.fullyFilled.map (·.order.id)
-    let kept := s.orders.filter (fun o => !gone.contains o.id)
-    let kept := match st.partialLeft with
-      | some left => kept.map (fun o => if o.id = left.id then left else o)
-      | none => kept
-    .ok { s with orders := kept, ledger := s.ledger ++ l }
+  match s.closeCached market collector st with
+  | (cache, none) => .ok cache
+  | (_, some e) => .error e
 
 /-- `SettleOrders` (MsgMarketSettle). -/
 def KState.settleOrders (s : KState) (market collector : Addr) (askIds bidIds : List Nat) (expectPartial : Bool) :
